@@ -345,7 +345,9 @@ func GenProgram(r *RNG, o ProgOpts) *Program {
 		for i, n := 0, r.Intn(3); i < n; i++ {
 			fmt.Fprintf(&b, "var V%d %s\n\n", i, g.typeExpr(path, 2, imports, true))
 		}
-		b.WriteString(r.Pick([]string{"", "const CI = 42\n\n", "const CS string = \"he said \\\"hi\\\"\"\n\nconst CF = 1.5\n\n", "const (\n\tCA int8 = -3\n\tCB = 'x'\n\tCT = true\n)\n\n", "const Big = 1 << 70\n\n"}))
+		b.WriteString(r.Pick([]string{"", "const CI = 42\n\n", "const CS string = \"he said \\\"hi\\\"\"\n\nconst CF = 1.5\n\n", "const (\n\tCA int8 = -3\n\tCB = 'x'\n\tCT = true\n)\n\n", "const Big = 1 << 70\n\n",
+			// constants of a defined string type: their value is the string, not its Go spelling
+			"// Phase is a defined string type.\ntype Phase string\n\nconst (\n\tPending Phase = \"Pending\"\n\tQuoted  Phase = \"a \\\"b\\\"\\n\"\n)\n\n"}))
 		_ = mine
 		var src strings.Builder
 		fmt.Fprintf(&src, "// Package %s is generated.\npackage %s\n\n", pk.Name, pk.Name)
